@@ -89,6 +89,16 @@ func (r *Rec) Write(b []byte) (int, error) {
 	return r.Body.Write(b)
 }
 
+// WriteString and Flush: like net/http's own response writer, the recording writer offers the optional
+// io.StringWriter and http.Flusher interfaces (code that probes for them must find what a real server has).
+func (r *Rec) WriteString(s string) (int, error) { return r.Write([]byte(s)) }
+
+func (r *Rec) Flush() {
+	if r.Status == 0 {
+		r.WriteHeader(200)
+	}
+}
+
 // Code is the status a client would see.
 func (r *Rec) Code() int {
 	if r.Status == 0 {
